@@ -997,3 +997,23 @@ func VerifC11LongUnicode() {
 	vf.Assert("unicode-sign-same-bytes-at-every-offset", uni == ascii)
 	vf.Reach("end")
 }
+
+// VerifC04RestOnly: a piece made of rests only is a sentence of the grammar like any other:
+// `text parse` and both `text conv` commands accept it, and the conversion lists one instance
+// per rest with its durations and no chord.
+func VerifC04RestOnly() {
+	text := []string{"R[1]", "R[1,1/2] R[2]{txt=hi}\n", " R[3/4] ; only a rest\n"}[vf.NondetIntRange("text", 0, 2)]
+	rests := []int{1, 2, 1}[map[string]int{"R[1]": 0, "R[1,1/2] R[2]{txt=hi}\n": 1, " R[3/4] ; only a rest\n": 2}[text]]
+	cmd := []*cobra.Command{textCmdParse, textCmdConvSyllable, textCmdConvDegree}[vf.NondetIntRange("command", 0, 2)]
+	in := vf.TempPath("restonly-in.txt")
+	verifReset(in)
+	defer verifReset(in)
+	os.WriteFile(in, []byte(text), 0o644)
+	vf.Assert("flags-parse", cmd.ParseFlags([]string{"--output", ""}) == nil)
+	out, err := verifCapture("restonly-out.txt", func() error { return cmd.RunE(cmd, []string{in}) })
+	vf.Assert("a-sentence-of-rests-is-accepted", err == nil && out != "")
+	if err == nil && cmd != textCmdParse {
+		vf.Assert("one-instance-per-rest-and-no-chord", len(verifYAMLValues(out, "values")) == 0 && strings.Count(out, "values:") == rests && !strings.Contains(out, "chord:"))
+	}
+	vf.Reach("end")
+}
